@@ -98,6 +98,16 @@ def base_grid(tier, monitors, gregory_only=False, meek_only=False, symtie=False,
         import itertools as _it2
         l3s = [' '.join(map(str, p)) for p in _it2.permutations(range(1, 5), 3)] + ['1', '2', '3', '4']
         jobs.append(job('scotland', {}, 4, 2, 3, 5, monitors, B, symtie=symtie, lines=l3s, weight=6))
+        if not quick:
+            # thorough: the same full-ranking universe for every Gregory-family rule and QPQ, two and three seats
+            for rule, opts, N4 in [('wigm', FX2, 5), ('wigm-prf', {}, 5), ('wigm-prf-batch', {}, 5), ('cfer', {}, 5), ('cfer-batch', {}, 5), ('mpls', {}, 5),
+                                   ('scotland', {}, 5), ('qpq', {}, 4), ('wigm', G44, 4)]:
+                if not want(rule) or (gregory_only and rule == 'qpq'):
+                    continue
+                for seats in (2, 3):
+                    if rule == 'scotland' and seats == 2:
+                        continue
+                    jobs.append(job(rule, opts, 4, seats, 3, N4, monitors, B, symtie=symtie, lines=l3s, weight=25))
     if not gregory_only:
         if want('meek-prf'):
             for seats in (1, 2):
